@@ -702,6 +702,7 @@ def run(ctx):
     ctx.guard(_C14.layout_subset, ctx, py, "C11")
     from props import helpers as _helpers_l
     ctx.guard(_helpers_l.lean_induction, ctx, "C11", ['Pvx.loop_rule'])
+    ctx.guard(_helpers_l.lean_psd, ctx, "C11", ['Pvx.congr_psd', 'Pvx.predict_psd', 'Pvx.joseph_psd'])
     # frame of the modules under contract (no state kept between calls, arguments left alone): same analysis as C19
     from props import C19 as _C19
     ctx.guard(_C19.frame_obligations, ctx, py, "C11", {'kalman', 'util', 'filters'})
